@@ -19,6 +19,11 @@ class Facts:
         inv = inline.load_inventory()
         for cname, c in self.crates.items():
             if inv is not None and cname in inv.get("crates", {}):
+                mv = inline.module_moves(c["bodies"], set(inv["crates"][cname]))
+                if mv:
+                    c = inline.apply_module_moves(c, mv)
+                    self.crates[cname] = c
+                    self.renamed = dict(getattr(self, "renamed", {}), **{cname + "::" + k: v for k, v in mv.items()})
                 al = inline.rename_aliases(c["bodies"], set(inv["crates"][cname]), inv.get("detail", {}).get(cname, {}))
                 if al:
                     c = inline.apply_aliases(c, al)
